@@ -24,7 +24,7 @@ func genC03(r *Rnd, t Tier) *Case {
 		p.Period = time.Duration(r.Range(1, 20)) * 10 * unit
 	case 3:
 		p.RateThr = uint(pick(r, 1, 20, 33, 50, 51, 67, 100))
-		p.ExecThr = uint(r.Range(1, 8))
+		p.ExecThr = uint(r.Range(0, 8))
 		switch r.Intn(3) {
 		case 0:
 			p.RateThr = uint(r.Range(1, 100))
@@ -124,6 +124,9 @@ func genC03(r *Rnd, t Tier) *Case {
 	}
 	sc.Clients = []Client{{Ops: ops}}
 	sc.NoProbes = false
+	if r.P(0.05) {
+		sc.Policies[0].Delay = foreverDelay(r) // the clock advances stay relative to the small delay drawn above
+	}
 	return &Case{Sc: sc, Cfg: simrtSerial()}
 }
 
